@@ -87,7 +87,11 @@ RULE = (
     "(op parse_url), and the composed pipeline of Model/LruUrl.lean (op lru_url: urlsplit(ensure_protocol(u)), "
     "lru_stems(u), url_to_lru(u), lru_to_url of it, urlsplit of that, url_to_lru of that, ValueError included, "
     "and membership of the class `inClass` of the string-level theorems) must agree with the real functions "
-    "and with an independent Python reading of the class. The distribution counts the evaluations inside the "
+    "and with an independent Python reading of the class. Tie of the theorems with suffix_trie.py inside (*_psl): for "
+    "every URL case run with suffix_aware=True the model splits the host with ITS OWN trie built from the regenerated "
+    "suffix list (op lru_pairs_psl with an empty batch: nothing shipped from the real split_suffix) and must return "
+    "the real split_suffix answer; the host condition pslHostOK of roundtrip_string_psl is compared with an independent "
+    "Python reading. The distribution counts the evaluations inside the "
     "proved class (string-class:inside) and, outside, the clause that fails. "
     "Non-trivial = the URL has no '|', urlsplit accepts it and it is inside the grammar (wf); "
     "distinct = distinct (URL, modes)."
@@ -102,12 +106,12 @@ TRUSTED = [
     "the two regexes are modelled by hand-written splitters; their pattern strings and the verdicts of the compiled regexes on a probe list are regenerated into Gen/LruPatterns.lean and re-checked by `decide` (table obligations), and the splitters are compared with re.split on every generated string",
     "CPython's urlsplit / SplitResult accessors / urlunsplit are hand-written Lean models (Py/UrlSplit.lean, Py/UrlAccessors.lean, Py/Split.lean) — compared with CPython 3.12 on every URL of the stream and on every round-trip result (ops parse_url, lru_url, urlunsplit), NOT proved equal to it; stated restrictions of the parser model: str.lower is ASCII lower-casing, _checknetloc (NFKC) is not modelled, _check_bracketed_host is approximated (no IPv4 tail inside an IPv6 literal: such URLs are rejected by the model, hence outside the string-level class, and withheld from the string-level tie); ensure_protocol is the model UrlParts.ensureProtocol (PROTOCOL_RE hand-matched; table obligations protocol_re_pattern, urllib_uses_netloc)",
     "ASCII-exact model: str.lower and \\d are modelled on ASCII only; generators use non-ASCII characters on which lower() is the identity and no non-ASCII digits",
-    "split_suffix (public-suffix trie, property C08) is an abstract parameter of the model; the driver uses the answer of the real split_suffix shipped with each case",
+    "split_suffix (public-suffix trie, property C08) is an abstract parameter of the model; the driver uses the answer of the real split_suffix shipped with each case; for the *_psl theorems it is the hand-written Lean model of ural/classes/suffix_trie.py (Model/SuffixTrie.lean, Model/LruPsl.lean; proved equal to the publicsuffix.org algorithm over the rule list: C08.walk_eq_psl) on the list regenerated from ural.tld_data — tied to the real split_suffix on the host of every suffix-aware URL case of this run (op lru_pairs_psl, nothing shipped)",
 ]
 ASSUMPTIONS = [
-    "C08 clause used as hypothesis (SplitRejoins / SplitRejoinsUrl): when split_suffix(url) is not None its two parts re-join to the lower-cased urlsplit(url).hostname; checked on every in-grammar case of this run (it fails exactly for hosts with a trailing dot, which are outside the suffix-aware reading). Nothing is assumed about split_suffix on a bracketed IP literal: stems.py does not consult it there (fix of the former KF-C12-1), and the theorems do not either (hostSplit, splitLaw_bracketed)",
-    "C08 case clause used as hypothesis (SplitCaseInv / SplitCaseInvUrl = Props.C08.split_case_insensitive at the hostname of u), only for suffix_aware=True and a plain host holding '%' (CPython's .hostname keeps the letter case of what follows a '%', the suffix-aware mode lower-cases the whole host): split_suffix answers the same for the lower-cased hostname; checked by the oracle on every such case of this run",
-    "reading: the suffix-aware clause is demanded for hosts without empty label (DESIGN D35); hosts are compared lower-cased in suffix-aware mode (so a plain host with '%' is inside the reading: the accessor form B.hostname == A.hostname is NOT demanded there, it fails by design of CPython's .hostname); userinfo/host without raw '@', port without ':' (the grammar); empty and absent user/password identified",
+    "C08 clause used as hypothesis (SplitRejoins / SplitRejoinsUrl) ONLY by the theorems with an abstract split_suffix (serialization_string, roundtrip_string_partial, accessors_string_partial, stems_wellformed, roundtrip_parts): when split_suffix(url) is not None its two parts re-join to the lower-cased urlsplit(url).hostname. For the real split_suffix it is FALSE on a plain host that ends with '.' or is '.'+public suffix (suffix_trie.py strips trailing dots / answers an empty domain) — there these theorems say nothing; the theorems with suffix_trie.py inside (serialization_string_psl: no hypothesis at all; roundtrip_string_psl / accessors_string_psl: host condition pslHostOK = bracketed literal, or neither leading nor trailing dot) replace the hypothesis by a proof (splitLaw_psl_class, splitCaseInv_psl), and the clause is checked by the oracle on every pslHostOK case of this run. Nothing is assumed about split_suffix on a bracketed IP literal: stems.py does not consult it there (fix of the former KF-C12-1), and the theorems do not either (hostSplit, splitLaw_bracketed)",
+    "C08 case clause used as hypothesis (SplitCaseInv / SplitCaseInvUrl = Props.C08.split_case_insensitive at the hostname of u) by roundtrip_string_partial only, for suffix_aware=True and a plain host holding '%' (CPython's .hostname keeps the letter case of what follows a '%', the suffix-aware mode lower-cases the whole host): split_suffix answers the same for the lower-cased hostname; proved for suffix_trie.py (splitCaseInv_psl), checked by the oracle on every such case of this run",
+    "reading: hosts are compared lower-cased in suffix-aware mode (so a plain host with '%' is inside the reading: the accessor form B.hostname == A.hostname is NOT demanded there, it fails by design of CPython's .hostname); userinfo/host without raw '@', port without ':' (the grammar); 'userinfo' is compared as the pair (user or '', password or ''): empty and absent user/password are identified ('http://u:@h' comes back as 'http://u@h', 'http://@h' and 'http://:@h' as 'http://h'); 'host:' (empty port) and 'host' are the same port for the oracle (CPython .port is None for both). The former reading 'suffix-aware clause only for hosts without empty label' (DESIGN D35) is WITHDRAWN: every plain host is demanded, the loss of a trailing / lone leading empty label is the known finding KF-C12-2",
 ]
 UNPROVED = (
     "The parser hypothesis is discharged: roundtrip_string_partial / accessors_string_partial / serialization_string are "
@@ -117,13 +121,25 @@ UNPROVED = (
     "(2) the round trip is proved on the class inClass = {u : the parser accepts ensure_protocol(u); no '|'; netloc in the "
     "grammar wfNetloc; a host; no raw '[' ']' in the userinfo} — one class for both modes, split_suffix is not consulted: "
     "EVERY bracketed literal is inside it (pure IPv6, zone id, IPvFuture, whatever public suffix its text ends with — the "
-    "former KF-C12-1 witnesses now round-trip, Lean examples), and so are plain hosts with '%' (suffix-aware: given C08's "
-    "case clause SplitCaseInvUrl, which is Props.C08.split_case_insensitive at the hostname of u). Outside the class: no host / "
+    "former KF-C12-1 witnesses now round-trip, Lean examples), and so are plain hosts with '%'. Outside the class: no host / "
     "netloc outside the grammar really fail (fullRoundtripString_false, examples); a malformed authority raises ValueError; "
     "a raw bracket in the userinfo: no failing input known, the proof would need the bracket check of urlsplit to survive "
     "the removal of an empty password (IPvFuture / zone texts holding ':@') — covered by correspondence + oracle only. "
-    "accessors_string_partial (the statement in CPython's vocabulary, B.hostname == A.hostname) has the extra hypothesis "
-    "'suffix-aware: no % in a plain host', and really fails without it (example: http://a%B.com/ comes back as "
+    "(2a) SUFFIX-AWARE MODE, inside the class: the theorems for an abstract split_suffix (roundtrip_string_partial, "
+    "accessors_string_partial, and serialization_string outside the class too) take C08's clause at u (SplitRejoinsUrl) as a "
+    "HYPOTHESIS, which the real split_suffix does not satisfy on a plain host ending with '.' or equal to '.'+public suffix; "
+    "with suffix_trie.py inside (Props/C12Psl.lean) serialization_string_psl has NO hypothesis (every '|'-free string the parser "
+    "accepts, those hosts included) and roundtrip_string_psl / accessors_string_psl hold under the exact host condition pslHostOK "
+    "(bracketed literal, or neither leading nor trailing dot; C08's case clause for hosts with '%' is proved, not assumed). "
+    "OUTSIDE pslHostOK THE PROPERTY REALLY FAILS ON THE CODE — known finding KF-C12-2: lru_to_url(url_to_lru('http://a.co.uk./', "
+    "suffix_aware=True)) == 'http://a.co.uk/' (suffix_aware=False keeps the root label as the empty stem 'h:'), likewise "
+    "'http://.co.uk/' -> 'http://co.uk/'; theorem fullRoundtripStringPsl_false + examples (on a toy suffix list; reproduced on the "
+    "implementation with the real list on every run), candidate patch notes/fixes/c12-lru-stems-suffix-aware-empty-labels.diff. "
+    "Hosts with an inner or leading empty label that is part of the domain (a..co.uk, .a.co.uk) are inside pslHostOK or round-trip anyway. "
+    "(2b) userinfo is compared up to 'empty ≡ absent' (expectedParts / canonAuth; 'u:@h' -> 'u@h', '@h' -> 'h'): a reading of "
+    "'re-parse to exactly the components … userinfo', the printed strings differ; "
+    "accessors_string_partial / accessors_string_psl (the statement in CPython's vocabulary, B.hostname == A.hostname) have the extra hypothesis "
+    "'suffix-aware: no % in a plain host', and really fail without it (example: http://a%B.com/ comes back as "
     "http://a%b.com/; .hostname does not lower-case after '%'); "
     "(3) embedded-IPv4 literals are covered at component level (splitRejoins_of_c08, relru_fixed, roundtrip_parts) "
     "but not at string level: the parser model rejects them (stated restriction of Py/UrlSplit.lean)"
@@ -568,6 +584,8 @@ def ops(case):
             o = parts_json(A, split)
             o.update({"f": "lru", "sa": sa})
             out.append(o)
+        if True in case["sa"]:
+            out.append(psl_tie_op(A))
         return out
     if k == "stems":
         return [{"f": "lru_stems", "stems": case["stems"]}]
@@ -577,6 +595,23 @@ def ops(case):
         t = case["t"]
         return [{"f": "urlunsplit", "scheme": t[0], "netloc": t[1], "path": t[2], "query": t[3], "fragment": t[4]}]
     return []
+
+
+def psl_tie_op(A):
+    """tie of the *_psl theorems (Props/C12Psl.lean: split_suffix := the model of suffix_trie.py, Lru.pslSplit): the
+    model splits the host of this URL with its own trie, built from the regenerated suffix list — NO answer of the
+    real split_suffix is shipped (driver op lru_pairs_psl of Driver/C13.lean, with an empty batch) — and must return
+    what the real split_suffix answered (hostSplit: a bracketed literal has none)"""
+    from props import C08 as P
+
+    return {"f": "lru_pairs_psl", "rules_file": P.T()["path"], "sa": True, "u": parts_json(A, None), "vs": []}
+
+
+def host_split_of(A, split):
+    sp = spec_hostport(hostport_of(A[1]))
+    if sp is not None and sp[0].startswith("["):
+        return None
+    return split
 
 
 def _guard(fn):
@@ -636,7 +671,10 @@ def impl(case):
         if pr is None:
             return out
         A, split = pr
-        return out + [_impl_url(C, case["url"], sa, A, split) for sa in case["sa"]]
+        out = out + [_impl_url(C, case["url"], sa, A, split) for sa in case["sa"]]
+        if True in case["sa"]:
+            out.append({"u_split": host_split_of(A, split), "rows": []})
+        return out
     if k == "stems":
         st = case["stems"]
         lru = _guard(lambda: serialize_lru(st))
